@@ -339,9 +339,8 @@ def rule_R2(ctx):
         if good:
             recv = a[2]
             # receiver must be get_proposal_distribution(data_point, parent, …) on the same kernel
-            ra = dict(recv).keys() if False else None
-            from ..termflow import Poly as _P
-            rp = _P(dict(recv)).as_atom() if isinstance(recv, tuple) and recv and not isinstance(recv[0], str) else recv
+            from ..termflow import key_atom
+            rp = key_atom(recv)
             good = rp is not None and rp[0] == "mcall" and rp[1] == "get_proposal_distribution" and len(rp[3]) >= 2 and rp[3][1] == vkey(parent) and rp[2] == vkey(ev.recv)
         if not good:
             ok = False
